@@ -18,6 +18,9 @@ RULE = ("cases = (layer configuration, evaluation point, direction) derivative c
 
 
 def run(rep):
+    if rep.tier == "thorough":
+        from .. import proofs
+        proofs.attach(rep, "TapeProofs")      # TLAPS: the state machine's invariants for ANY number of calls / threads / modules / history length
     fnd = Findings()
     c = dict(SizeSet=models.rng(2, 32), CSet={1, 2, 3, 4}, ExtFix=models.FIX.get("ExtFix", False))
     res = tlc.run_model("Scat", c, invariants=["BwdSplitOK", "StBwdView2", "BwdSplit1OK", "PoolAdjointOK", "StChan2"],
